@@ -11,6 +11,11 @@ type CtxData struct {
 	BlockTime   *smt.Term
 	BlockHeight *smt.Term // lazily: an arbitrary non-negative height, fixed per context
 	Name        string
+	// cache contexts (Context.CacheContext): a branch of the bank state that reaches the parent
+	// only when the returned write function is called
+	Parent *CtxData
+	Bank   *BankModel
+	Cached bool
 }
 
 // KItem is one item of a structured key: raw bytes or a compkey component
@@ -60,6 +65,9 @@ func (e *Exec) ctxKVStore(ctx Value, key Value) Value {
 	}
 	// stores are per context family: a context made by another vEnv* call has its own multistore
 	if co, ok := ctx.(Opaque); ok {
+		if cd, ok := co.Data.(*CtxData); ok && cd != nil && cd.Cached {
+			panic(engineErr("KV store access through a cache context (Context.CacheContext) is not modelled"))
+		}
 		if cd, ok := co.Data.(*CtxData); ok && cd != nil {
 			name = cd.Name + "/" + name
 		}
